@@ -47,10 +47,10 @@ COMPONENTS = {
 EXPECTED_PROBES = ["cx_with_index", "cx_without_index", "index_inherited_by_derived_object",
                    "pickle_of_indexed_object", "page_size_1", "omitted_end", "reversed_ends",
                    "whole_page_of_inert_rows", "covered_rows_nonempty", "container_frame",
-                   "container_series", "container_array"]
+                   "container_series", "container_array", "strided_or_reversed_slice"]
 
 PAGES = (1, 2, 3, 5, 8, 512)
-OPS = ("build", "build", "sindex", "slice", "take", "mask", "copy", "concat", "colsubset",
+OPS = ("build", "build", "sindex", "slice", "slice_step", "take", "mask", "copy", "concat", "colsubset",
        "pickle", "parquet", "cx", "cx", "cx", "cx")
 
 
@@ -225,6 +225,22 @@ def _drive(case, root, fs, probes, sig, done):
             else:
                 new = _guard("iloc slice", lambda: o.obj.iloc[a:b], sig)
             done.append(("slice", a, b))
+        elif op == "slice_step":
+            # strided / reversed slices, whole-length ones included (arr[::-1], iloc[::2])
+            step = (-1, 2, -2, -1)[st["bits"] & 3]
+            if st["bits"] & 4:
+                sl = slice(None, None, step)
+            else:
+                a, b = sorted((st["a"] % (n + 1), st["b"] % (n + 1)))
+                sl = slice(a, b, step) if step > 0 else slice(b - 1 if b else None,
+                                                              a - 1 if a else None, step)
+            sel = list(range(n))[sl]
+            if o.container == "array":
+                new = _guard("strided slice", lambda: o.obj[sl], sig)
+            else:
+                new = _guard("iloc strided slice", lambda: o.obj.iloc[sl], sig)
+            probes["strided_or_reversed_slice"] = 1
+            done.append(("slice_step", sl.start, sl.stop, sl.step))
         elif op == "take":
             if n == 0:
                 continue
